@@ -5,6 +5,7 @@ package verifsim
 import (
 	"encoding/json"
 	"fmt"
+	"os"
 	"time"
 )
 
@@ -94,11 +95,17 @@ func (w *World) answersStable() {
 
 func (w *World) result() *Result {
 	w.answersStable()
-	r := &Result{Viol: w.Viol, Faults: w.FaultsFired, Probes: w.Probes, SimSecs: time.Since(w.start).Seconds(), Steps: w.Sim.steps, Log: w.evlog}
+	r := &Result{Viol: w.Viol, Faults: w.FaultsFired, Probes: w.Probes, SimSecs: time.Since(w.start).Seconds(), Steps: w.Sim.totalSteps(), Log: w.evlog}
 	r.TraceHash = hash64(w.TraceSig())
 	r.SchedHash = hash64(w.Sim.TraceString())
 	if w.Sim.Overrun {
 		r.Infra = "scheduler step budget exceeded"
+	}
+	if w.Sim.SlotOverflow {
+		r.Infra = "a task id does not fit a scheduling slot"
+	}
+	if os.Getenv("VERIF_TRACE") != "" {
+		r.Log = append(r.Log, "sched: "+w.Sim.TraceDebug())
 	}
 	return r
 }
